@@ -55,12 +55,17 @@ def gen_world(rng):
     return {"parts": parts, "boxes": boxes, "shelves": shelves}
 
 
-def gen_part_pattern(rng):
+ELEM_TYPE = {"lid": "Part", "parts": "Part", "main": "Box", "boxes": "Box"}
+
+
+def gen_part_pattern(rng, allow_empty=False):
     attrs = {}
     if rng.random() < 0.8:
         attrs["name"] = ["lit", rng.choice("ab")]
     if rng.random() < 0.4 or not attrs:
         attrs["size"] = ["lit", rng.randint(0, 2)]
+    if allow_empty and rng.random() < 0.3:
+        attrs = {}
     return {"type": rng.choice(["Part", "Part", "BigPart"]), "attrs": attrs}
 
 
@@ -70,7 +75,7 @@ def gen_box_pattern(rng, world, depth, allow_select):
     choices = ["label", "lid", "parts", "weight", "lid", "parts"] + (["tags"] if rng.random() < 0.25 else [])
     rng.shuffle(choices)
     choices = list(dict.fromkeys(choices))
-    for a in choices[:rng.randint(1, 3)]:
+    for a in choices[:rng.choice([1, 2, 2, 3, 3, 4])]:
         if a == "label":
             attrs[a] = ["lit", rng.choice(["B0", "B1", "B2"])]
         elif a == "weight":
@@ -82,24 +87,30 @@ def gen_box_pattern(rng, world, depth, allow_select):
             if k < 0.6:
                 attrs[a] = ["match", gen_part_pattern(rng)]
             elif k < 0.8 and allow_select:
-                attrs[a] = ["select", gen_part_pattern(rng)]
+                attrs[a] = ["select", gen_part_pattern(rng, allow_empty=True)]
             else:
                 attrs[a] = ["litobj", rng.randrange(n)]
         else:
             k = rng.random()
-            cand = [rng.randrange(n) for _ in range(rng.randint(1, 2))]
-            if k < 0.2:
+            cand = [rng.randrange(n) for _ in range(rng.randint(1, 3))]
+            if k < 0.18:
                 attrs[a] = ["any", cand]
-            elif k < 0.4:
+            elif k < 0.36:
                 attrs[a] = ["all", cand]
-            elif k < 0.6:
+            elif k < 0.52:
                 attrs[a] = ["match", gen_part_pattern(rng)]
-            elif k < 0.8:
+            elif k < 0.66:
                 attrs[a] = ["anymatch", gen_part_pattern(rng)]
-            elif k < 0.9:
+            elif k < 0.74:
                 attrs[a] = ["litobj", rng.randrange(n)]
+            elif not allow_select:
+                attrs[a] = ["any", cand]
+            elif k < 0.84:
+                attrs[a] = ["select", gen_part_pattern(rng, allow_empty=True)]
+            elif k < 0.92:
+                attrs[a] = ["select_any", cand]
             else:
-                attrs[a] = ["select_any", cand] if allow_select else ["any", cand]
+                attrs[a] = ["select_all", cand]
     return {"type": rng.choice(["Box", "Box", "FancyBox"]), "attrs": attrs}
 
 
@@ -111,10 +122,12 @@ def gen(rng, tier, ctx):
         if rng.random() < 0.5:
             attrs["code"] = ["lit", rng.choice(["S0", "S1"])]
         k = rng.random()
+        inner_sel = allow_select and rng.random() < 0.6
+        sel_here = allow_select and rng.random() < 0.4
         if k < 0.5:
-            attrs["main"] = ["match", gen_box_pattern(rng, world, 1, False)]
+            attrs["main"] = ["select" if sel_here else "match", gen_box_pattern(rng, world, 1, inner_sel)]
         elif k < 0.8:
-            attrs["boxes"] = ["match", gen_box_pattern(rng, world, 1, False)]
+            attrs["boxes"] = ["select" if sel_here else "match", gen_box_pattern(rng, world, 1, inner_sel)]
         else:
             attrs["boxes"] = ["anymatch", gen_box_pattern(rng, world, 1, False)]
         pat = {"type": "Shelf", "attrs": attrs}
@@ -131,6 +144,7 @@ def witnesses():
     return {
         "match-any-collapses-equal-collections": {"world": world, "pattern": {"type": "Box", "attrs": {"parts": ["any", [0]]}}, "root_selected": False},
         "literal-on-builtin-collection-is-equality": {"world": world, "pattern": {"type": "Box", "attrs": {"tags": ["lit", "x"]}}, "root_selected": False},
+        "selected-part-of-another-element": {"world": world, "pattern": {"type": "Box", "attrs": {"lid": ["select", {"type": "Part", "attrs": {}}]}}, "root_selected": True},
     }
 
 
@@ -149,12 +163,7 @@ def make_world(w, mm):
     return parts, boxes, shelves
 
 
-def build_pattern(pat, mm, parts, M, domain=None, root=False, root_selected=False, selects=None):
-    T = getattr(mm, pat["type"])
-    if root:
-        m = (M.entity_selection if root_selected else M.entity_matching)(T, domain)
-    else:
-        m = M.match(T)
+def build_kwargs(pat, mm, parts, M, selects, path):
     kw = {}
     for a, c in pat["attrs"].items():
         k = c[0]
@@ -163,27 +172,36 @@ def build_pattern(pat, mm, parts, M, domain=None, root=False, root_selected=Fals
         elif k == "litobj":
             kw[a] = parts[c[1]]
         elif k == "match":
-            kw[a] = build_pattern(c[1], mm, parts, M)
+            kw[a] = M.match(getattr(mm, c[1]["type"]))(**build_kwargs(c[1], mm, parts, M, selects, path + (a,)))
         elif k == "select":
-            sub = c[1]
-            s = M.select(getattr(mm, sub["type"]))
-            s(**{aa: cc[1] for aa, cc in sub["attrs"].items()})
-            selects.append((a, s))
-            kw[a] = s
+            sel = M.select(getattr(mm, c[1]["type"]))
+            selects.append((path + (a,), sel))
+            sel(**build_kwargs(c[1], mm, parts, M, selects, path + (a,)))
+            kw[a] = sel
         elif k == "any":
             kw[a] = M.match_any([parts[i] for i in c[1]])
         elif k == "all":
             kw[a] = M.match_all([parts[i] for i in c[1]])
-        elif k == "select_any":
-            s = M.select_any([parts[i] for i in c[1]])
-            selects.append((a, s))
-            kw[a] = s
+        elif k in ("select_any", "select_all"):
+            sel = (M.select_any if k == "select_any" else M.select_all)([parts[i] for i in c[1]])
+            selects.append((path + (a,), sel))
+            kw[a] = sel
         elif k == "anymatch":
             sub = M.match_any(getattr(mm, c[1]["type"]))
-            inner = build_pattern(c[1], mm, parts, M)
-            sub(**inner.kwargs)
+            sub(**build_kwargs(c[1], mm, parts, M, selects, path + (a,)))
             kw[a] = sub
-    return m(**kw)
+    return kw
+
+
+def build_pattern(pat, mm, parts, M, domain=None, root=False, root_selected=False, selects=None):
+    T = getattr(mm, pat["type"])
+    m = (M.entity_selection if root_selected else M.entity_matching)(T, domain)
+    return m(**build_kwargs(pat, mm, parts, M, selects, ()))
+
+
+def unconstrained(sub, attr):
+    """a nested match / select without keyword constraints on the attribute's declared (element) type adds no condition"""
+    return not sub["attrs"] and sub["type"] == ELEM_TYPE.get(attr)
 
 
 def matches(obj, pat, mm, parts):
@@ -197,17 +215,63 @@ def matches(obj, pat, mm, parts):
         elif k == "litobj":
             ok = any(x is parts[c[1]] for x in v) if isinstance(v, list) else (v is parts[c[1]])
         elif k in ("match", "select", "anymatch"):
-            ok = any(matches(x, c[1], mm, parts) for x in v) if isinstance(v, list) else matches(v, c[1], mm, parts)
+            if isinstance(v, list) and unconstrained(c[1], a):
+                ok = True
+            else:
+                ok = any(matches(x, c[1], mm, parts) for x in v) if isinstance(v, list) else matches(v, c[1], mm, parts)
         elif k in ("any", "select_any"):
             cand = {id(parts[i]) for i in c[1]}
             ok = any(id(x) in cand for x in v)
-        elif k == "all":
+        elif k in ("all", "select_all"):
             ok = {id(x) for x in v} == {id(parts[i]) for i in c[1]}
         else:
             raise ValueError(c)
         if not ok:
             return False
     return True
+
+
+def allowed_values(o, pat, path, mm, parts):
+    """ids of the values a select at `path` may report for the matched element o -> (allowed ids, element ids that
+    must all be reported when the select is an element pattern on a collection)"""
+    a = path[0]
+    c = pat["attrs"][a]
+    v = getattr(o, a)
+    cands = v if isinstance(v, list) else [v]
+    k = c[0]
+    if len(path) > 1:
+        allowed, must = set(), set()
+        for x in cands:
+            if matches(x, c[1], mm, parts):
+                al, mu = allowed_values(x, c[1], path[1:], mm, parts)
+                allowed |= al
+                must |= mu
+        return allowed, must
+    if k == "select":
+        elems = [x for x in cands if matches(x, c[1], mm, parts)]
+        if isinstance(v, list):
+            if unconstrained(c[1], a):
+                return {id(v)}, set()
+            return {id(x) for x in elems} | {id(v)}, {id(x) for x in elems}
+        return {id(x) for x in elems}, {id(x) for x in elems}
+    if k in ("select_any", "select_all"):
+        cand = {id(parts[i]) for i in c[1]}
+        return {id(v)} | {id(x) for x in v if id(x) in cand}, set()
+    raise ValueError(c)
+
+
+def any_values(o, pat, path=()):
+    """(path, element identities) of every collection an existential constraint looks at below o; the listed finding
+    de-duplicates answers by the value of that collection"""
+    out = set()
+    for a, c in pat["attrs"].items():
+        v = getattr(o, a, None)
+        if c[0] in ("any", "select_any", "anymatch") and isinstance(v, list):
+            out.add((path + (a,), tuple(id(x) for x in v)))
+        if c[0] in ("match", "select", "anymatch") and v is not None:
+            for x in (v if isinstance(v, list) else [v]):
+                out |= any_values(x, c[1], path + (a,))
+    return out
 
 
 def skeleton(pat):
@@ -233,16 +297,11 @@ def run(spec, ctx):
     pat = spec["pattern"]
     ks = kinds(pat, set())
     for k, a in ks:
-        C["kind:" + ("match" if k == "select" else "any" if k == "select_any" else "lit" if k == "litobj" else k)] += 1
+        C["kind:" + {"select": "match", "select_any": "any", "select_all": "all", "litobj": "lit"}.get(k, k)] += 1
     root_T = getattr(mm, pat["type"])
     exp = [o for o in dom if matches(o, pat, mm, parts)]
+    exp_ids = {id(o) for o in exp}
     selects = []
-    key_hint = None
-    # known mechanisms
-    if any(k in ("any", "select_any", "anymatch") for k, a in ks):
-        key_hint = "match-any-collapses-equal-collections"
-    if ("lit", "tags") in ks:
-        key_hint = "literal-on-builtin-collection-is-equality"
     try:
         m = build_pattern(pat, mm, parts, M, domain=list(dom), root=True, root_selected=spec["root_selected"], selects=selects)
         q = an(m)
@@ -253,65 +312,79 @@ def run(spec, ctx):
         return {"status": "fail", "kind": "exception:" + type(e).__name__, "key": None,
                 "detail": f"{type(e).__name__}: {e}"[:300] + " | " + skeleton(pat)}
     idn = {id(o): repr(o) + "#" + str(i) for i, o in enumerate(dom)}
-    problems = []
-    n_sel = len(selects) + (1 if spec["root_selected"] else 0)
-    if n_sel == 0:
-        got = rows
-    elif n_sel == 1 and spec["root_selected"]:
-        got = rows
-    else:
-        # rows are inner parts (one select) or dicts (several selects): check consistency, derive roots when possible
-        got = None
+    extra_problems, missing_problems = [], []
+    allowed = {id(o): [allowed_values(o, pat, path, mm, parts) for path, _ in selects] for o in exp}
+    supported = set()             # expected elements for which some row speaks
+    reported = [set() for _ in selects]
+    if selects:
         C["selects_checked"] += 1
-        for r in rows:
-            if n_sel == 1:
-                attr, s = selects[0]
-                vals = [r]
-                # consistency: the selected part must belong to some expected element
-                if not any((r is getattr(o, attr)) or (isinstance(getattr(o, attr), list) and any(r is x for x in getattr(o, attr))) for o in exp):
-                    problems.append(f"selected {r!r} is not the {attr} of any element satisfying the pattern")
-            else:
+    if len(selects) > 1 or (selects and spec["root_selected"]):
+        C["multi_select_rows"] += len(rows)
+    for r in rows:
+        is_row = hasattr(r, "keys") and not isinstance(r, mm.Symbol)
+        root, vals = None, [[] for _ in selects]
+        if is_row:
+            if spec["root_selected"]:
                 try:
-                    root = r[m.variable] if spec["root_selected"] else None
-                except Exception:
-                    root = None
-                for attr, s in selects:
+                    root = r[m.variable]
+                except Exception as e:
+                    extra_problems.append(f"row has no value for the selected root: {type(e).__name__}")
+                    continue
+            for i, (path, sel) in enumerate(selects):
+                got_any = False
+                for var in (sel.variable, sel._var_):
                     try:
-                        val = r[s._var_]
-                    except Exception as e:
-                        problems.append(f"row has no value for select on {attr}: {type(e).__name__}")
-                        continue
-                    if root is not None:
-                        ra = getattr(root, attr)
-                        if not (val is ra or (isinstance(ra, list) and any(val is x for x in ra))):
-                            problems.append(f"row is inconsistent: selected {attr}={val!r} does not belong to the row's element {root!r}")
-                if root is not None:
-                    got = (got or []) + [root]
-        if got is None and not problems:
-            # completeness via the selected parts: every expected element must contribute at least one selected part
-            attr, s = selects[0]
-            sel_ids = {id(r) for r in rows} if n_sel == 1 else None
-            if sel_ids is not None:
-                for o in exp:
-                    v = getattr(o, attr)
-                    vs = v if isinstance(v, list) else [v]
-                    sub = pat["attrs"][attr]
-                    if sub[0] == "select":
-                        vs = [x for x in vs if matches(x, sub[1], mm, parts)]
-                    else:
-                        vs = [x for x in vs if any(x is parts[i] for i in sub[1])]
-                    if vs and not any(id(x) in sel_ids for x in vs):
-                        problems.append(f"no selected part reported for matching element {o!r}")
-    if got is not None:
-        C["elements_compared"] += len(got)
-        sg, se = {id(o) for o in got}, {id(o) for o in exp}
-        if sg != se:
-            problems.append(f"extra={[idn.get(i, '?') for i in sorted(sg - se)][:4]} missing={[idn.get(i, '?') for i in sorted(se - sg)][:4]}")
-        if len(got) != len(sg):
-            C["duplicate_results"] += 1
-    if problems:
-        C["fail:" + (key_hint or "UNEXPLAINED")] += 1
-        return {"status": "fail", "kind": "pattern-mismatch", "key": key_hint, "detail": "; ".join(problems[:3]) + " | " + skeleton(pat)}
+                        vals[i].append(r[var])
+                        got_any = True
+                    except Exception:
+                        pass
+                if not got_any:
+                    extra_problems.append(f"row has no value for the select on {'.'.join(path)}")
+        elif not selects:
+            root = r
+        elif len(selects) == 1 and not spec["root_selected"]:
+            vals[0].append(r)
+        else:
+            extra_problems.append(f"{len(selects)} selects (root selected: {spec['root_selected']}) but a bare value {r!r} was returned")
+            continue
+        for i, vs in enumerate(vals):
+            reported[i] |= {id(x) for x in vs}
+        if root is not None and id(root) not in exp_ids:
+            extra_problems.append(f"extra element {idn.get(id(root), repr(root))}")
+            continue
+        cands = [root] if root is not None else exp
+        speaks_for = [o for o in cands if all(all(id(x) in allowed[id(o)][i][0] for x in vs) for i, vs in enumerate(vals))]
+        if not speaks_for:
+            what = [[idn.get(id(x), repr(x)[:40]) for x in vs] for vs in vals]
+            extra_problems.append(f"selected parts {what} are not the parts of {'the row element ' + idn.get(id(root), '?') if root is not None else 'any element satisfying the pattern'}")
+        supported |= {id(o) for o in speaks_for}
+    C["elements_compared"] += len(rows)
+    for o in exp:
+        if id(o) not in supported:
+            missing_problems.append(o)
+    lost_parts = []
+    for i, (path, sel) in enumerate(selects):
+        must = set()
+        for o in exp:
+            if id(o) in supported:
+                must |= allowed[id(o)][i][1]
+        if not must <= reported[i]:
+            lost_parts.append(f"matching parts {[idn.get(x, '?') for x in sorted(must - reported[i])][:3]} of the select on {'.'.join(path)} are not reported")
+    if len({id(r) for r in rows}) != len(rows) and not selects:
+        C["duplicate_results"] += 1
+    if extra_problems or missing_problems or lost_parts:
+        key = None
+        if not extra_problems and not lost_parts:
+            if ("lit", "tags") in ks and not rows:
+                key = "literal-on-builtin-collection-is-equality"
+            else:
+                # the twin need not satisfy the rest of the pattern: the existential condition de-duplicates on its own
+                av = {id(o): any_values(o, pat) for o in dom}
+                if all(any(av[id(o)] & av[id(o2)] for o2 in dom if o2 is not o) for o in missing_problems):
+                    key = "match-any-collapses-equal-collections"
+        C["fail:" + (key or "UNEXPLAINED")] += 1
+        detail = extra_problems[:2] + [f"missing elements {[idn.get(id(o), '?') for o in missing_problems][:4]}"] * bool(missing_problems) + lost_parts[:2]
+        return {"status": "fail", "kind": "pattern-mismatch", "key": key, "detail": "; ".join(detail) + " | " + skeleton(pat)}
     n_root = sum(1 for o in dom if isinstance(o, root_T))
     return {"status": "ok", "nontrivial": 0 < len(exp) < n_root, "shape": skeleton(pat) + ("|rootsel" if spec["root_selected"] else ""),
             "obs": {"expected": len(exp), "rows": len(rows)}}
